@@ -132,14 +132,21 @@ fn row_json(r: &Row, c: bool) -> Value {
 }
 
 fn shard(kind: &str, body: &str) -> String {
-    // columns: id, metric, p, q, x, w, w - tol, code
+    // columns: id, metric, p, q, x, w, w - tol, code.  One pass per row; `if` (not andb) keeps the
+    // exact distance comparisons lazy under vm_compute's call-by-value.
     format!(
         "{}Definition rows : list (N * metric * nat * vec * vec * Q * Q * bool) := [\n  {}\n].\n\
-Definition idof (c : N * metric * nat * vec * vec * Q * Q * bool) : N := match c with (id, _, _, _, _, _, _, _) => id end.\n\
-Definition differ := map idof (filter (fun c => match c with (_, m, p, q, x, w, _, b) => negb (Bool.eqb (can_affect m p q x w) b) end) rows).\n\
-Definition unsound := map idof (filter (fun c => match c with (_, m, p, q, x, w, _, b) => negb b && Nat.eqb (length q) (length x) && dist_le m q x w end) rows).\n\
-Definition unsound_tol := map idof (filter (fun c => match c with (_, m, p, q, x, _, wt, b) => negb b && Nat.eqb (length q) (length x) && dist_le m q x wt end) rows).\n\
-Definition model_false := length (filter (fun c => match c with (_, m, p, q, x, w, _, b) => negb (can_affect m p q x w) end) rows).\n\
+Definition evalrow (c : N * metric * nat * vec * vec * Q * Q * bool) : N * bool * bool * bool * bool :=\n\
+  match c with (id, m, p, q, x, w, wt, b) =>\n\
+    let ca := can_affect m p q x w in\n\
+    let le := if b then false else if Nat.eqb (length q) (length x) then dist_le m q x w else false in\n\
+    let let_ := if le then dist_le m q x wt else false in\n\
+    (id, negb (Bool.eqb ca b), le, let_, negb ca) end.\n\
+Definition ev := Eval vm_compute in (map evalrow rows).\n\
+Definition differ := map (fun r => match r with (id, _, _, _, _) => id end) (filter (fun r => match r with (_, d, _, _, _) => d end) ev).\n\
+Definition unsound := map (fun r => match r with (id, _, _, _, _) => id end) (filter (fun r => match r with (_, _, u, _, _) => u end) ev).\n\
+Definition unsound_tol := map (fun r => match r with (id, _, _, _, _) => id end) (filter (fun r => match r with (_, _, _, u, _) => u end) ev).\n\
+Definition model_false := length (filter (fun r => match r with (_, _, _, _, f) => f end) ev).\n\
 Goal True. idtac \"@@kind {}\". Abort.\n\
 Goal True. idtac \"@@differ\". Abort.\nEval vm_compute in differ.\n\
 Goal True. idtac \"@@unsound\". Abort.\nEval vm_compute in unsound.\n\
@@ -178,7 +185,7 @@ pub fn run_stream(n: usize, rng: &mut Rng) -> (Vec<String>, Value, Value) {
     let mut all = vec![];
     let mut id = 0usize;
     for (kind, rows) in [("grid", &grid), ("near", &near)] {
-        for chunk in rows.chunks(700) {
+        for chunk in rows.chunks(500) {
             let body: Vec<String> = chunk.iter().map(|(r, c)| {
                 let s = row_coq(id, r, *c);
                 all.push(row_json(r, *c));
